@@ -780,7 +780,46 @@ def plugin_identity(chk):
         chk.ok(r, fi.qual, "every returning path builds cls(section=entry_point.name, digest=entry_point.load(), ...)", node=fi.node)
 
 
+def error_text_is_total(chk):
+    """O14.7: building the text of a configuration error cannot fail itself.  `sep.join(x)` over a mapping keyed by plugin
+    objects (or any collection filled with non-strings) raises TypeError, which then replaces the ConfigurationError the
+    caller is promised"""
+    prog = chk.program
+    rule = "O14.7"
+    fi = prog.functions.get(MAPPING_LOAD)
+    if fi is None:
+        raise Undecided("load_configuration not found")
+    n = 0
+    ok = True
+    # containers of the function and what they are filled with
+    nonstr = {}
+    loop_objs = set()
+    for f in ast.walk(fi.node):
+        if isinstance(f, ast.For) and isinstance(f.target, ast.Name) and isinstance(f.iter, ast.Name) and f.iter.id in fi.params():
+            loop_objs.add(f.target.id)  # elements of a parameter (the plugins): objects, not strings
+    for a in ast.walk(fi.node):
+        if isinstance(a, ast.Assign):
+            for t in a.targets:
+                if isinstance(t, ast.Subscript) and isinstance(t.value, ast.Name) and isinstance(t.slice, ast.Name) and t.slice.id in loop_objs:
+                    nonstr[t.value.id] = "keyed by %s (an object, not a string)" % t.slice.id
+        if isinstance(a, ast.Call) and isinstance(a.func, ast.Attribute) and a.func.attr in ("append", "add") and isinstance(a.func.value, ast.Name) and a.args and isinstance(a.args[0], ast.Name) and a.args[0].id in loop_objs:
+            nonstr[a.func.value.id] = "filled with %s (an object, not a string)" % a.args[0].id
+    for c in ast.walk(fi.node):
+        if isinstance(c, ast.Call) and isinstance(c.func, ast.Attribute) and c.func.attr == "join" and len(c.args) == 1:
+            n += 1
+            chk.count()
+            arg = c.args[0]
+            while isinstance(arg, ast.Call) and isinstance(arg.func, ast.Name) and arg.func.id in ("sorted", "list", "tuple", "reversed", "set") and arg.args:
+                arg = arg.args[0]
+            if isinstance(arg, ast.Name) and arg.id in nonstr:
+                chk.bad(rule, fi.qual, "%s joins %s, which is %s: str.join raises TypeError, and that error replaces the configuration error being built" % (util.unparse(c)[:50], arg.id, nonstr[arg.id]), node=c, stmt="join-nonstr %s" % arg.id)
+                ok = False
+    if ok:
+        chk.ok(rule, fi.qual, "%d join calls, none over a collection of plugin objects" % n)
+
+
 def run(chk):
+    chk.guard("O14.7", MAPPING_LOAD, error_text_is_total, chk)
     chk.guard("O14.6", "SectionPlugin.load", plugin_identity, chk)
     chk.guard("O14.1", MAPPING_LOAD, mapping_rules, chk)
     chk.guard("O14.3", SECTION_LOADER, loader_rules, chk)
